@@ -18,9 +18,11 @@ use std::collections::{HashMap, HashSet};
 use std::io::{self, Write};
 use std::rc::Rc;
 
-/// `Encoder::with_info` configurations with an inconsistent frame control (finding N3)
+/// `Encoder::with_info` configurations with an inconsistent frame control (N3, repaired in f1da483:
+/// expected outcome = refusal with ZeroWidth / ZeroHeight / OutOfBounds, sequence number reset to 0)
 pub const GEN_WITH_INFO_BAD_FCTL: bool = true;
-/// frame-rectangle setters applied before the first image (finding N5)
+/// frame-rectangle setters applied before the first image (N5, repaired in 92ed98c: expected outcome =
+/// the sub-frame first image is refused with OutOfBounds, by write_image_data and by stream_writer)
 pub const GEN_SETTERS_BEFORE_FIRST: bool = true;
 /// stream sessions that are opened and dropped without a complete image
 pub const GEN_ABANDONED_SESSIONS: bool = true;
@@ -784,6 +786,27 @@ pub fn rect_apply(fc: &mut Option<Rect>, cw: u32, ch: u32, op: &SetOp) {
     }
 }
 
+/// What the repaired `Encoder::with_info` (f1da483) has to answer for an explicit frame control:
+/// `None` = accepted.  Written from the documented rule ("the same rules as set_frame_dimension /
+/// set_frame_position"), not from the model.
+pub fn expected_with_info_err(cfg: &Cfg) -> Option<&'static str> {
+    let fc = cfg.fc.as_ref()?;
+    if let Some((0, _)) = cfg.anim {
+        return Some("err:zeroFrames");
+    }
+    if fc.w == 0 {
+        return Some("err:zeroWidth");
+    }
+    if fc.h == 0 {
+        return Some("err:zeroHeight");
+    }
+    let fits = |len: u32, off: u32, canvas: u32| canvas >= off && len <= canvas - off;
+    if !fits(fc.w, fc.x, cfg.w) || !fits(fc.h, fc.y, cfg.h) {
+        return Some("err:outOfBounds");
+    }
+    None
+}
+
 impl Shadow {
     pub fn new(cfg: &Cfg) -> Shadow {
         let fc = match (&cfg.fc, cfg.anim) {
@@ -798,6 +821,10 @@ impl Shadow {
             Some(r) => (r.0, r.1),
             None => (self.cw, self.ch),
         }
+    }
+    /// repaired N5 (92ed98c): the first image is the default image and has to cover the canvas
+    pub fn first_image_subframe(&self) -> bool {
+        self.images_written == 0 && matches!(self.fc, Some(r) if r != (self.cw, self.ch, 0, 0))
     }
     pub fn image_size(&self) -> usize {
         let (w, h) = self.dims();
@@ -1169,20 +1196,34 @@ pub fn panic_line(msg: &str) -> Option<u32> {
     }
 }
 
+/// the model's `PanicSite` name of a real panic: by message, line numbers (of /repo at 92ed98c) only to
+/// tell apart sites with the same message
 pub fn panic_res(msg: &str) -> String {
-    let site = match panic_line(msg) {
-        Some(781) | Some(791) | Some(809) | Some(823) => "chunksZero",
-        Some(991) | Some(992) | Some(1515) | Some(1516) => "resetDimUnderflow",
-        Some(844) => "animWrittenOverflow",
-        Some(1234) | Some(1289) => "seqOverflow",
-        Some(1288) => "chunkBufferIndex",
-        Some(1673) => "rowSlice",
-        Some(1615) | Some(1616) | Some(1637) | Some(1665) | Some(1666) | Some(1690) => "unreachableWrapper",
-        Some(1213) => "nextFrameInfoOverflow",
-        Some(1221) => "assertIndexZero",
-        Some(1254) => "setFctlNotAnimated",
-        Some(1675) => "toWriteUnderflow",
-        _ => return format!("panic:{}", msg.rsplit(" @ ").next().unwrap_or("?").replace(' ', "_")),
+    let line = panic_line(msg);
+    let site = if msg.contains("chunk size must be non-zero") {
+        "chunksZero"
+    } else if msg.contains("range end index 4 out of range") {
+        "chunkBufferIndex"
+    } else if msg.contains("range end index") || msg.contains("out of range for slice") {
+        "rowSlice"
+    } else if msg.contains("entered unreachable code") {
+        "unreachableWrapper"
+    } else if msg.contains("Called when not flushed") {
+        "assertIndexZero"
+    } else if msg.contains("must be called on an animated PNG") {
+        "setFctlNotAnimated"
+    } else if msg.contains("attempt to subtract with overflow") {
+        match line {
+            Some(1712) => "toWriteUnderflow",
+            _ => "resetDimUnderflow",
+        }
+    } else if msg.contains("attempt to add with overflow") {
+        match line {
+            Some(875) => "animWrittenOverflow",
+            _ => "seqOverflow",
+        }
+    } else {
+        return format!("panic:{}", msg.rsplit(" @ ").next().unwrap_or("?").replace(' ', "_"));
     };
     format!("panic:{}", site)
 }
@@ -1250,7 +1291,17 @@ impl<'c> Rt<'c> {
             }
             Ok(r) => {
                 let s = enc_res(&r);
-                self.rec(before_new, format!("{}:new", tag), CallKind::StreamNew, &s, None, owned);
+                // repaired N6 (90b6476) and N5 (92ed98c): refused before anything is written
+                let mis = if self.shadow_unreliable {
+                    None
+                } else if self.case.cfg.color == 3 && self.case.cfg.pal.is_none() {
+                    Some("indexed-no-palette")
+                } else if self.sh.first_image_subframe() {
+                    Some("first-image-subframe")
+                } else {
+                    None
+                };
+                self.rec(before_new, format!("{}:new", tag), CallKind::StreamNew, &s, mis, owned);
                 out.push(s);
                 match r {
                     Ok(sw) => sw,
@@ -1415,6 +1466,8 @@ pub fn exec(case: &Case) -> Observed {
                         Step::Image(d) => {
                             let mis = if rt.shadow_unreliable {
                                 None
+                            } else if rt.sh.first_image_subframe() {
+                                Some("first-image-subframe")
                             } else if d.len() != rt.sh.image_size() {
                                 Some("wrong-size")
                             } else if case.cfg.val && rt.sh.images_ok >= case.cfg.declared() {
@@ -2492,6 +2545,37 @@ pub fn compare_validators(rust: &Result<(), String>, lean: &str, exact: bool) ->
     Some(("model", format!("validator/{}-vs-{}", r, l), format!("Rust validator says `{}`, `c12 validate` says `{}`", r, lean.chars().take(80).collect::<String>())))
 }
 
+/// The outcomes the repairs f1da483 / 90b6476 / 92ed98c promise, checked on the real calls (independent of
+/// the model): `with_info` answers an inconsistent frame control with the right error and writes nothing;
+/// a first image that does not cover the canvas and an indexed image without palette are refused.
+pub fn repaired_misuse_oracles(case: &Case, obs: &Observed) -> Vec<Finding> {
+    let mut f: Vec<Finding> = vec![];
+    if case.cfg.fc.is_some() && !obs.panicked() {
+        match expected_with_info_err(&case.cfg) {
+            Some(e) => {
+                if obs.hdr != e {
+                    f.push(("oracle", "misuse-accepted/with-info-fctl".into(), format!("Encoder::with_info answered `{}` for an inconsistent frame control, expected `{}`", obs.hdr, e)));
+                } else if !obs.bytes.is_empty() {
+                    f.push(("oracle", "misuse-accepted/with-info-fctl".into(), format!("Encoder::with_info refused the configuration but {} bytes reached the sink", obs.bytes.len())));
+                }
+            }
+            None => {
+                if matches!(obs.hdr.as_str(), "err:zeroWidth" | "err:zeroHeight" | "err:outOfBounds") && case.cfg.w != 0 && case.cfg.h != 0 {
+                    f.push(("oracle", "with-info-fctl/refused-consistent".into(), format!("Encoder::with_info refused a frame control inside the canvas: {}", obs.hdr)));
+                }
+            }
+        }
+    }
+    for c in &obs.calls {
+        if let Some(m) = c.misuse {
+            if (m == "first-image-subframe" || m == "indexed-no-palette") && c.res == "ok" {
+                f.push(("oracle", format!("misuse-accepted/{}", m), format!("{} ({}) returned Ok although it is misuse: {}", c.kind.name(), c.what, m)));
+            }
+        }
+    }
+    f
+}
+
 /// everything C12 checks on one executed case
 pub fn judge(case: &Case, obs: &Observed, lean_validate: Option<&str>, model_ans: Option<&str>, table: &Table) -> (Vec<Finding>, &'static str) {
     let mut f: Vec<Finding> = vec![];
@@ -2503,6 +2587,7 @@ pub fn judge(case: &Case, obs: &Observed, lean_validate: Option<&str>, model_ans
             f.push(("oracle", oracle_class(case, obs, r), format!("encoder output of an in-domain program is rejected by the validator: {}", r)));
         }
     }
+    f.extend(repaired_misuse_oracles(case, obs));
     if let Some(l) = lean_validate {
         if let Some(x) = compare_validators(&verdict, l, true) {
             f.push(x);
@@ -2984,7 +3069,7 @@ fn exhaustive_cases(max_len: usize) -> Vec<Case> {
     out
 }
 
-/// N3: `Encoder::with_info` with a frame control that does not fit the canvas / the sequence
+/// N3 (repaired): `Encoder::with_info` with a frame control that does not fit the canvas / the sequence
 fn with_info_bad_fctl_cases(rng: &mut Rng) -> Vec<Case> {
     let mut out = vec![];
     let fcs = [
@@ -3002,6 +3087,14 @@ fn with_info_bad_fctl_cases(rng: &mut Rng) -> Vec<Case> {
                 let cfg = Cfg { w: 2, h: 2, color: 0, depth: 8, anim: Some((frames, 0)), fc: Some(fc.clone()), comp: 2, filt: 0, val, ..Default::default() };
                 let mut sh = Shadow::new(&cfg);
                 let mut steps = vec![];
+                if sh.first_image_subframe() {
+                    // (if with_info lets it through) the sub-frame first image is refused; after the
+                    // resets the declared images go through
+                    steps.push(Step::Image(rng.bytes(sh.image_size())));
+                    steps.push(Step::Set(SetOp::ResetPos));
+                    steps.push(Step::Set(SetOp::ResetDim));
+                    sh.fc = Some((cfg.w, cfg.h, 0, 0));
+                }
                 for _ in 0..frames {
                     steps.push(Step::Image(rng.bytes(sh.image_size())));
                     sh.whole_image_done();
@@ -3013,7 +3106,7 @@ fn with_info_bad_fctl_cases(rng: &mut Rng) -> Vec<Case> {
     out
 }
 
-/// panicking variants of N3 (C19 only counts them; in C12 they are outside the domain)
+/// the formerly panicking variants of N3 (repaired: refused by with_info, or harmless after the reset)
 pub fn with_info_panic_cases() -> Vec<Case> {
     let mk = |fc: Fc, steps: Vec<Step>, fin: PFinal| Case {
         cfg: Cfg { w: 2, h: 2, color: 0, depth: 8, anim: Some((2, 0)), fc: Some(fc), comp: 2, filt: 0, ..Default::default() },
@@ -3033,7 +3126,7 @@ pub fn with_info_panic_cases() -> Vec<Case> {
     ]
 }
 
-/// N5: frame-rectangle setters before the first image
+/// N5 (repaired): frame-rectangle setters before the first image
 fn setters_before_first_cases(rng: &mut Rng) -> Vec<Case> {
     let mut out = vec![];
     for sep in [false, true] {
@@ -3142,7 +3235,7 @@ fn all_cases(ctx: &mut Ctx) -> Vec<Case> {
             }
         }
     }
-    // indexed without palette (whole image refuses; the stream writer does not: N6)
+    // indexed without palette (whole image refuses; so does the stream writer since 90b6476: N6 repaired)
     for depth in [1u8, 8] {
         let c = Cfg { w: 2, h: 2, color: 3, depth, comp: 2, filt: 0, ..Default::default() };
         cases.push(Case { cfg: c.clone(), sink: SinkSpec::default(), steps: vec![Step::Image(vec![0; 2 * row_bytes(3, depth, 2)])], fin: PFinal::Finish, origin: "no-palette".into() });
@@ -3576,6 +3669,17 @@ pub fn process_cases(ctx: &mut Ctx, cases: &[Case]) -> Vec<Vec<u8>> {
         }
         for p in &o.panics {
             ctx.rep.count("panics (not judged by C12)", p.rsplit(" @ ").next().unwrap_or("?"));
+        }
+        // the repaired refusals (N3, N5, N6) as they are exercised
+        if c.cfg.fc.is_some() {
+            ctx.rep.count("with_info(frame control)", &format!("expected {} -> {}", expected_with_info_err(&c.cfg).unwrap_or("accepted"), o.hdr));
+        }
+        for call in &o.calls {
+            if let Some(m) = call.misuse {
+                if m == "first-image-subframe" || m == "indexed-no-palette" {
+                    ctx.rep.count("repaired refusals", &format!("{} {} -> {}", call.kind.name(), m, call.res));
+                }
+            }
         }
         if in_dom && v.is_ok() && o.bytes.len() <= 3000 && pool.len() < 400 {
             let k = fnv64(&o.bytes);
